@@ -3,10 +3,11 @@ CONSTANTS
   Data = {"d1", "d2"}
   MaxGroups = 2
   MaxDelay = 1
+  MaxLayerOps = 1
   AttrMenu <- c_AttrMenu
   Filters <- c_Filters
 INIT Init
 NEXT Next1
 CONSTRAINT D5
-INVARIANT Inv_GivenInColl
+INVARIANT Inv_LayersInColl
 INVARIANT Inv_SelectionIsAChoice
